@@ -254,4 +254,24 @@ CHECKS = {
                 "Non-trivial: packets of the hostile connections reached handlers (more invocations than control logins).",
         "assumptions": COMMON_ASSUME + ["components not registered by cmds/server/main.go (SPAN, DNS provider, syslog accounter, HAProxy header) are outside the check"],
     },
+    "C15": {
+        "quick": 150, "thorough": 3000, "race": True, "shards_thorough": 12, "timeout_quick": 1500,
+        "rule": "rapid draws a concurrent workload run with real goroutines against the whole reference server built with -race: 2..8 "
+                "clients (each its own net.Pipe connection; scripts of PAP and ASCII logins, command authorizations of the same "
+                "user, session authorizations, accounting; optional multiplexing of two sessions; 0..2 extra connections opened and "
+                "dropped), 1..4 reloads between two configurations A and B pushed while the clients run (YAML or JSON), 20..200 "
+                "lookups of one address concurrent with the reloads, cancellation after or during the workload. The harness shares "
+                "nothing between client goroutines; logger and accounting sink are lock-free no-ops; the transport synchronises only "
+                "the two ends of one connection. Oracles: (1) Go race detector: the driver parses every report, takes the first "
+                "frame of each access that lies in /repo or the harness, and counts the report iff an access is in tacquito code "
+                "(signature = the pair of accessing functions; a pair entirely inside the harness is a harness bug, exit 2); "
+                "(2) old-or-new: A binds 10.1.0.5 to key-A, B denies it but has key-B for the prefix, so any other answer mixes two "
+                "configurations; (3) every value published by the real YAML/JSON loader still serialises to the same JSON after each "
+                "later load. Non-trivial (holds by construction, measured): >=2 clients authorising commands of one user, >=2 "
+                "connections, and >=1 lookup observed before the reloads finished.",
+        "assumptions": COMMON_ASSUME + ["happens-before race detection needs both accesses to execute; it is insensitive to their timing but not to their absence",
+                                         "not every interleaving is explored"],
+        "technique": "property-based generation of concurrent workloads (rapid) with the Go race detector, an old-or-new lookup oracle and snapshot equality as oracles",
+        "min_nontrivial_quick": 2,
+    },
 }
